@@ -169,6 +169,8 @@ def gen_record(rng, kind):
             # drag terms: arbitrary, or with a mantissa that rounds up to 1.00000 at five digits (carry into the exponent)
             "bstar": rng.choice([rng.uniform(-1e-3, 1e-3) * rng.choice([1, 1e-3, 1e-6]), rng.choice([1, -1]) * rng.uniform(9.99995, 9.9999999) * 10 ** rng.randint(-9, -2)]),
             "ndotdot": rng.choice([0.0, rng.uniform(-1e-5, 1e-5), 6 * rng.uniform(9.99995, 9.9999999) * 10 ** rng.randint(-9, -3)]),
+            # the angles of an orbit held in TLE form may have been set outside [0, 360) (nodal regression, phasing): whole turns added
+            "wrap": rng.choice([[0, 0, 0], [0, 0, 0], [-1, 0, 0], [0, 1, -1], [1, -1, 2]]),
             "sod_us": rng.choice([rng.randrange(86400000000), 86400000000 - rng.randint(1, 432), 86400000000 - rng.randint(1, 1000), rng.randrange(86400000000)]),
         }
     return rec
@@ -195,7 +197,7 @@ def gen_plan(rng, tier, i):
         ops.append({"op": "enumerate_entry", "entry": k})
     # catalogue faults (each applied alone to the pristine stored text)
     for _ in range(rng.randint(2, 6)):
-        ops.append({"op": "catalogue_fault", "kind": rng.choice(["lose", "dup", "swap", "corrupt", "truncate", "lose", "corrupt"]), "line": rng.randrange(64), "col": rng.randrange(69), "digit": rng.randrange(1, 10), "policy": rng.choice(["ignore", "warn", "raise"])})
+        ops.append({"op": "catalogue_fault", "kind": rng.choice(["lose", "dup", "swap", "corrupt", "truncate", "lose", "corrupt", "zero_to_letter", "zero_to_letter"]), "line": rng.randrange(64), "col": rng.randrange(69), "digit": rng.randrange(1, 10), "policy": rng.choice(["ignore", "warn", "raise"])})
     return {"knobs": {"records": recs, "comments": rng.random() < 0.3, "three_line": three, "all_line_faults": rng.random() < 0.3}, "ops": ops}
 
 
@@ -213,7 +215,7 @@ def build_orbit(node, rec):
         dt = datetime(rec["year"], 1, 1) + timedelta(days=rec["doy"] - 1, microseconds=us)
     else:
         f = rec["free"]
-        v = dict(rec_values(rec), i=f["i"], raan=f["raan"], e=f["e"], argp=f["argp"], M=f["M"], n=f["n"], ndot=f["ndot"], bstar=f["bstar"], ndotdot=f["ndotdot"])
+        v = dict(rec_values(rec), i=f["i"], raan=f["raan"] + f.get("wrap", [0, 0, 0])[0] * 360.0, e=f["e"], argp=f["argp"] + f.get("wrap", [0, 0, 0])[1] * 360.0, M=f["M"] + f.get("wrap", [0, 0, 0])[2] * 360.0, n=f["n"], ndot=f["ndot"], bstar=f["bstar"], ndotdot=f["ndotdot"])
         dt = datetime(rec["year"], 1, 1) + timedelta(days=rec["doy"] - 1, microseconds=f["sod_us"])
     date = node.Date(dt)
     elems = [np.radians(v["i"]), np.radians(v["raan"]), v["e"], np.radians(v["argp"]), np.radians(v["M"]), v["n"] * 2 * np.pi / 86400.0]
@@ -249,7 +251,7 @@ def cmp_fields(want, got, exact):
             tol = 1e-9 * max(abs(a), 1.0) if exact else FIELD_TOL[k]
         d = abs(a - b)
         if k in ("raan", "argp", "M") and not exact:
-            d = min(d, abs(d - 360.0))
+            d = abs((a - b + 180.0) % 360.0 - 180.0)  # equal modulo a whole turn
         if d > tol:
             bad.append(k)
     return bad
@@ -299,6 +301,14 @@ def run_plan(plan, ctx):
                 ctx.violate("write", dict(fp, kind="line_length"), f"entry {k}: written lines are {len(l1)} and {len(l2)} characters long: {l1!r} / {l2!r}")
             if str(checksum(l1)) != l1[68] or str(checksum(l2)) != l2[68]:
                 ctx.violate("write", dict(fp, kind="wrong_checksum"), f"entry {k}: written checksum digits {l1[68]}/{l2[68]}, model {checksum(l1)}/{checksum(l2)}")
+            try:
+                pf = parse_fields(l1, l2)
+                bad_ang = [k_ for k_ in ("raan", "argp", "M") if not (0.0 <= pf[k_] < 360.0)] + ([] if 0.0 <= pf["i"] <= 180.0 else ["i"])
+            except Exception:  # noqa
+                bad_ang = ["unreadable"]
+            ctx.checks += 1
+            if bad_ang:
+                ctx.violate("write", dict(fp, kind="angle_field_out_of_range", field=bad_ang[0]), f"entry {k}: the written angle field(s) {bad_ang} are not in [0, 360):\n   {l2}")
             if rec["kind"] == "grid":
                 m1, m2 = fmt_lines(rec)
                 ctx.checks += 1
@@ -535,6 +545,16 @@ def catalogue_fault(ctx, R, TleR, TleErr, cat_lines, entries, op):
         c = cols[op["col"] % len(cols)]
         nd = str((int(ln[c]) + op["digit"]) % 10)
         lines[idx] = ln[:c] + nd + ln[c + 1 :]
+        tags[idx] = None
+    elif kind == "zero_to_letter":
+        # a '0' read as the letter 'O' (OCR / retyping): letters do not count in the checksum, so line number, length and checksum
+        # are all still right, but the field cannot be read: the entry must be skipped (or refused under 'raise'), the others yielded
+        ln = lines[idx]
+        cols = [c for c, ch in enumerate(ln) if ch == "0" and 18 <= c < 63]
+        if not cols or tags[idx] is None or tags[idx][1] == "name":
+            return
+        c = cols[op["col"] % len(cols)]
+        lines[idx] = ln[:c] + "O" + ln[c + 1 :]
         tags[idx] = None
     elif kind == "truncate":
         if tags[idx] is None or tags[idx][1] == "name":
